@@ -36,8 +36,8 @@ def _objects(model, rng: random.Random, n: int):
 class HistoryRunner:
     """Performs one random operation per call to step(); never raises (failed API calls are part of the history)."""
 
-    KINDS = ["create", "create", "delete", "delete", "move", "link_add", "link_del", "attr_set", "create_bad", "setlist", "clear",
-             "reqrel_create", "reqrel_del"]
+    KINDS = ["create", "create", "delete", "delete", "move", "move_sibling", "move_sibling", "link_add", "link_del", "attr_set", "create_bad",
+             "setlist", "clear", "reqrel_create", "reqrel_del"]
 
     def __init__(self, model, rng: random.Random, savedir=None, kinds: list[str] | None = None):
         self.model, self.rng, self.savedir = model, rng, savedir
@@ -182,15 +182,32 @@ class HistoryRunner:
         return None
 
     def op_move(self):
-        o = self.pick(lambda o: bool(self.rels(o, ("direct",))))
+        o = self.pick(lambda o: bool(self.rels(o, ("direct", "role"))))
         if o is None:
             return None
-        name, acc = self.rng.choice(self.rels(o, ("direct",)))
+        name, acc = self.rng.choice(self.rels(o, ("direct", "role")))
         lst = getattr(o, name)
-        # an existing object of a compatible class from elsewhere
+        # an existing object of a compatible class from elsewhere (for role lists: one stored under the same role tag);
+        # half of the time prefer a donor living in another fragment/resource (cross-fragment move)
         cls = getattr(acc, "class_", None)
-        donor = self.pick(lambda x: cls is not None and isinstance(x, cls) and x._element is not o._element
-                          and o._element not in list(x._element.iterdescendants()) and x._element not in [o._element])
+        role_tag = getattr(acc, "role_tag", None)
+        xts = set(getattr(acc, "xtypes", []) or [])
+        here = self.model._loader.find_fragment(o._element)
+        want_other = self.rng.random() < 0.5
+
+        def ok(x):
+            if cls is None or not isinstance(x, cls) or x._element is o._element or o._element in list(x._element.iterdescendants()):
+                return False
+            if role_tag is not None and x._element.tag != role_tag:
+                return False
+            if role_tag is None and xts and x.xtype not in xts:
+                return False
+            return True
+        donor = None
+        if want_other:
+            donor = self.pick(lambda x: ok(x) and self.model._loader.find_fragment(x._element) != here)
+        if donor is None:
+            donor = self.pick(ok)
         if donor is None:
             return None
         # do not move an ancestor below its own descendant
@@ -200,6 +217,49 @@ class HistoryRunner:
         self._last = f"{type(o).__name__}({o.uuid}).{name}.insert({i}, {donor.uuid})"
         lst.insert(i, donor)
         return self._last
+
+    def container_of(self, obj):
+        """(parent object, relation name) of the containment/role list that holds obj"""
+        try:
+            par = obj.parent
+        except Exception:  # noqa: BLE001
+            return None
+        if par is None or not hasattr(par, "_element"):
+            return None
+        for name, acc in self.rels(par, ("direct", "role")):
+            if getattr(acc, "rootelem", None):
+                continue
+            try:
+                if any(e is obj._element for e in getattr(par, name)._elements):
+                    return par, name
+            except Exception:  # noqa: BLE001
+                continue
+        return None
+
+    def op_move_sibling(self):
+        """move an object into the same relation of another container of the same class — preferably one that lives
+        in a different fragment or resource"""
+        for _ in range(30):
+            d = self.pick()
+            if d is None:
+                return None
+            cont = self.container_of(d)
+            if cont is None:
+                continue
+            par, name = cont
+            fd = self.model._loader.find_fragment(d._element)
+            cands = [o for o in self.pool if type(o) is type(par) and o._element is not par._element and self._alive(o)
+                     and o._element not in list(d._element.iterdescendants()) and o._element is not d._element]
+            if not cands:
+                continue
+            other = [o for o in cands if self.model._loader.find_fragment(o._element) != fd]
+            owner = self.rng.choice(other or cands)
+            lst = getattr(owner, name)
+            i = self.rng.randint(0, len(lst))
+            self._last = f"{type(owner).__name__}({owner.uuid}).{name}.insert({i}, {d.uuid})  [from {fd} to {self.model._loader.find_fragment(owner._element)}]"
+            lst.insert(i, d)
+            return self._last
+        return None
 
     def op_link_add(self):
         o = self.pick(lambda o: bool(self.rels(o, ("link", "attr"))))
